@@ -69,7 +69,17 @@ var obRe = regexp.MustCompile(`(?m)^\s+(?:violated|undecided)\s+(\S.*)$`)
 
 // runMutants returns the results and writes nothing into repo or verif.
 func runMutants(prop, repo, verif string) []mutantResult {
-	seedsDir := filepath.Join(verif, "seeded")
+	return runVariants(prop, repo, verif, "seeded")
+}
+
+// runControls does the same for the behaviour-preserving refactorings recorded under verif/benign/<id>*: the check
+// must stay silent on each of them (specificity control).
+func runControls(prop, repo, verif string) []mutantResult {
+	return runVariants(prop, repo, verif, "benign")
+}
+
+func runVariants(prop, repo, verif, sub string) []mutantResult {
+	seedsDir := filepath.Join(verif, sub)
 	entries, err := os.ReadDir(seedsDir)
 	if err != nil {
 		return nil
@@ -92,7 +102,7 @@ func runMutants(prop, repo, verif string) []mutantResult {
 	}
 	// a stable path keeps the Go build cache warm across runs
 	scratch := filepath.Join(base, "ontocheck-mutant-"+prop)
-	sv := filepath.Join(base, "ontocheck-mutant-"+prop+"-verif")
+	sv := filepath.Join(base, "ontocheck-mutant-"+prop+"-verif-"+sub)
 	defer os.RemoveAll(scratch)
 	defer os.RemoveAll(sv)
 	var out []mutantResult
@@ -135,6 +145,45 @@ func runMutants(prop, repo, verif string) []mutantResult {
 
 // mergeMutantsIntoEvidence adds the self-test record to the evidence file the
 // check just wrote.
+func mergeControlsIntoEvidence(evPath string, res []mutantResult) {
+	b, err := os.ReadFile(evPath)
+	if err != nil {
+		return
+	}
+	var ev map[string]interface{}
+	if json.Unmarshal(b, &ev) != nil {
+		return
+	}
+	cov, _ := ev["coverage"].(map[string]interface{})
+	if cov == nil {
+		return
+	}
+	silent, applied := 0, 0
+	for _, r := range res {
+		if r.Applied {
+			applied++
+			if !r.Caught {
+				silent++
+			}
+		}
+	}
+	cov["specificity_selftest"] = map[string]interface{}{
+		"what":                  "each recorded behaviour-preserving refactoring touching this property's code was applied to a scratch copy of the current working tree and the same static check was run on the copy; the check must stay silent",
+		"refactorings":          len(res),
+		"applied":               applied,
+		"silent":                silent,
+		"results":               res,
+	}
+	nb, _ := json.MarshalIndent(ev, "", " ")
+	os.WriteFile(evPath, append(nb, '\n'), 0o644)
+	fmt.Printf("  specificity self-test: %d behaviour-preserving refactorings, %d apply to this tree, %d leave the check silent\n", len(res), applied, silent)
+	for _, r := range res {
+		if r.Applied && r.Caught {
+			fmt.Printf("  note: the check raises a false alarm on the behaviour-preserving refactoring %s: %v\n", r.Seed, r.Keys)
+		}
+	}
+}
+
 func mergeMutantsIntoEvidence(evPath string, res []mutantResult) {
 	b, err := os.ReadFile(evPath)
 	if err != nil {
